@@ -118,6 +118,11 @@ Theorem C03_front_enum_inventory : forall al d pref_doc warn c st st' w m r,
     Forall2 member_names (filter (fun x => enum_child x && negb (is_placeholder x)) (cd_defs c)) nss /\
     e_instances e = inst_pairs e (List.concat nss).
 Proof. exact enum_inventory. Qed.
+(* ... and the instances keep the assigned names; distinct names (Python's Enum refuses a reused name) give distinct ids, so
+   every member of such an enum is listed exactly once by id *)
+Theorem C03_enum_instance_names_and_ids : forall e ns,
+  map snd (inst_pairs e ns) = ns /\ (NoDup ns -> NoDup (map fst (inst_pairs e ns))).
+Proof. intros e ns. split; [apply inst_pairs_names|apply inst_pairs_ids_nodup]. Qed.
 (* Generator: the stub of an enum is its signature and - when the record lists instances - a brace block with one line per
    listed instance, in the order of the record, each once (the name passes through emit_name like every other name) *)
 Theorem C03_enum_stub_lists_every_instance_once : forall nc e,
@@ -144,3 +149,4 @@ Print Assumptions C03_enum_assignment_adds_its_instances.
 Print Assumptions C03_enum_stub_lists_every_instance_once.
 Print Assumptions C03_enum_statement_adds_assigned_names.
 Print Assumptions C03_front_enum_inventory.
+Print Assumptions C03_enum_instance_names_and_ids.
